@@ -235,6 +235,21 @@ def run_driver(cases, budget=None):
     return lines
 
 
+def in_parallel(fn, cases, min_chunk=1000):
+    """Cases are independent lines (each carries its whole input; harness and driver keep no state
+    between lines), so a long list is run in several processes at once, order preserved."""
+    n = len(cases)
+    workers = min(max(1, (os.cpu_count() or 2) - 2), n // min_chunk)
+    if workers < 2:
+        return fn(cases)
+    size = (n + workers - 1) // workers
+    chunks = [cases[i:i + size] for i in range(0, n, size)]
+    from concurrent.futures import ThreadPoolExecutor
+    with ThreadPoolExecutor(len(chunks)) as ex:
+        parts = list(ex.map(fn, chunks))
+    return [x for part in parts for x in part]
+
+
 def gen_cases(stream, seed, n):
     # (generators call the crate too - to write the files they then damage, to pick conforming
     # values -: a time limit, so that code under test that loops there is a reported failure of
@@ -496,8 +511,8 @@ def main():
             if not cases:
                 continue
             if rust is None:
-                rust = run_harness(cases)
-            model = run_driver(cases)
+                rust = in_parallel(run_harness, cases)
+            model = in_parallel(run_driver, cases)
             nd = 0
             for c, r, m in zip(cases, rust, model):
                 evaluations += 1
